@@ -138,14 +138,53 @@ def run(chk: core.Check, n: int, n_obj: int):
     return diffs
 
 
+def dtype_cases(chk: core.Check, n: int):
+    """the error matrix may be stored with any numeric dtype (an integer identity / integer-valued covariance, float32 from a
+    file): the result must be J E J^T for the VALUES given - i.e. what the same values stored as float64 give"""
+    import awkward as ak
+    import pybes3
+    rng = np.random.default_rng(chk.seed + 1212)
+    h = hc.gen(rng, n, far=False)
+    reg = hc.regular_mask(h, eps=1e-2)
+    cx, cy = hc.spec_centre(h)
+    reg &= np.hypot(cx - h["new"][:, 0], cy - h["new"][:, 1]) > 1e-2 * np.abs(hc.rho(h["kappa"]))
+    A = rng.integers(-3, 4, size=(n, 5, 5))
+    Eint = A @ A.transpose(0, 2, 1)
+    Eint[::3] = np.eye(5, dtype=int)[None]
+    newp = ak.zip({"x": h["new"][:, 0], "y": h["new"][:, 1], "z": h["new"][:, 2]}, with_name="Vector3D")
+    ref = ak.to_numpy(hc.impl_arr(h, error=Eint.astype(np.float64)).change_pivot(newp).error).astype(float)
+    for dt, rtol in ((np.int64, 1e-12), (np.int32, 1e-12), (np.float32, 2e-5)):
+        E = Eint.astype(dt)
+        got = ak.to_numpy(hc.impl_arr(h, error=E).change_pivot(newp).error).astype(float)
+        chk.count(n, key=f"dtype-array-{np.dtype(dt).name}")
+        chk.hist("error_dtype", np.dtype(dt).name, n)
+        mag = np.sqrt(np.einsum("nii->ni", np.abs(ref)))
+        bad = (np.abs(got - ref) > rtol * (mag[:, :, None] * mag[:, None, :]) + 1e-12).any(axis=(1, 2)) & reg
+        forms = [("array form", got, bad)]
+        k = min(n, 25)
+        gobj = np.array([np.asarray(hc.impl_obj_cp(h, i, error=E[i])[1].error, dtype=float) for i in range(k)])
+        chk.count(k, key=f"dtype-object-{np.dtype(dt).name}")
+        bobj = (np.abs(gobj - ref[:k]) > rtol * (mag[:k, :, None] * mag[:k, None, :]) + 1e-12).any(axis=(1, 2)) & reg[:k]
+        forms.append(("object form", gobj, bobj))
+        for fname, g, b in forms:
+            if b.any():
+                i = int(np.nonzero(b)[0][0])
+                chk.failing_input(f"change_pivot(...).error for an error matrix stored as {np.dtype(dt).name} ({fname}) vs the same values stored as float64",
+                                  {"helix": {kk: float(h[kk][i]) for kk in ("dr", "phi0", "kappa", "dz", "tanl")}, "pivot": h["piv"][i].tolist(), "new_pivot": h["new"][i].tolist(), "error": E[i].tolist(), "error_dtype": np.dtype(dt).name},
+                                  g[i].tolist(), ref[i].tolist(), "the returned error matrix equals J E J^T with the true Jacobian J (not a Jacobian truncated to the dtype of E)")
+                return
+
+
 def main(chk: core.Check) -> int:
     n, n_obj = (8000, 400) if chk.tier == "thorough" else (800, 60)
     chk.coverage["rule"] = "evaluations = change_pivot calls (incl. 20 per track for the finite-difference stencil); entries compared relative to sigma_i*sigma_j at 2e-4"
     chk.assumptions += ["theorems over the reals: wherever the parameter map is differentiable its derivative is the matrix the code uses; the finite-difference oracle has O(h^4) truncation error, tolerance 2e-4",
                         "hand-written model mirrors helix.py after the fix: commits"]
-    chk.prove()
+    chk.prove(modules=["C12", "C11b"])
     try:
         diffs = run(chk, n, n_obj)
+        if not chk.failing:
+            dtype_cases(chk, 600 if chk.tier == "thorough" else 90)
         chk.coverage["traces_validated_against_impl"] = n
         if diffs:
             chk.obligation_broken("correspondence", "Lean Float jacobian/propagate vs implementation", str(diffs[:2])[:3000])
